@@ -1,1 +1,279 @@
-/-! Property theorems for C16 — placeholder until the property's model is built. -/
+import FcpptModel.Spec.C16
+import FcpptProofs.C16.Loops
+import FcpptProofs.C16.Find
+import FcpptProofs.C16.Strings
+import FcpptProofs.C16.Assoc
+import FcpptProofs.C16.BSearch
+/-!
+# C16 — property theorems
+
+For every helper: the loop-level model (`FcpptModel/Model/C16.lean`, mirrors the C++) equals the one-line `List`
+specification, for **all** lists / tables / states; the visit log is the documented prefix; `join_strings` inverts
+`split_string`; `binary_search` on sorted input finds the unique equivalent element.
+Only theorems live here; lemmas are in `FcpptProofs/C16/`.
+-/
+namespace Fcppt.C16
+variable {α β σ : Type}
+
+/-! ## loops: visit in order, stop where documented -/
+
+/-- `loop_break` with an instrumented body computes the same state, and the elements it looked at are a prefix
+    of the range, in order — for every (state-dependent) body. -/
+theorem visits_in_order (xs : List α) (body : α → σ → Loop × σ) (s : σ) :
+    ∃ k, k ≤ xs.length ∧ loopBreak xs (logged body) (s, []) = (loopBreak xs body s, xs.take k) := by
+  simpa using loopBreak_logged xs body s []
+
+/-- If the body stops exactly on the elements satisfying `brk`, the loop looks at everything up to and including the
+    first such element and at nothing else. -/
+theorem stops_at_break (brk : α → Bool) (xs : List α) (body : α → σ → Loop × σ)
+    (hb : ∀ x s, (body x s).1 = if brk x then .break_ else .continue_) (s : σ) :
+    (loopBreak xs (logged body) (s, [])).2 = xs.take (xs.findIdx brk + 1) := by
+  simpa [Spec.visited] using loopBreak_logged_visited brk xs body hb s []
+
+/-- the index recursion used for tuples and mpl lists is the same loop -/
+theorem tupleLoopBreak_eq_loopBreak (xs : List α) (body : α → σ → Loop × σ) (s : σ) :
+    tupleLoopBreak xs body 0 s = loopBreak xs body s := by
+  simpa using tupleLoopBreak_drop xs body 0 s
+
+/-- `loop` visits every element once, in order: it is the left fold -/
+theorem loop_spec (xs : List α) (body : α → σ → σ) (s : σ) : loop xs body s = xs.foldl (fun s x => body x s) s :=
+  loop_eq_foldl xs body s
+
+/-! ## map, map_optional, map_concat, fold, fold_break -/
+
+/-- `map` into a sequence container = `List.map`, `f` is called on every element once, in order -/
+theorem map_spec (hint : Option Nat) (xs : List α) (f : α → β) :
+    (mapSeq hint xs f).1.elems = xs.map f ∧ (mapSeq hint xs f).2 = xs := mapSeq_eq hint xs f
+
+/-- the `reserve` optimisation does not change the result -/
+theorem map_reserve_irrelevant (h₁ h₂ : Option Nat) (xs : List α) (f : α → β) :
+    (mapSeq h₁ xs f).1.elems = (mapSeq h₂ xs f).1.elems := by
+  rw [(mapSeq_eq h₁ xs f).1, (mapSeq_eq h₂ xs f).1]
+
+/-- `map` into a `std::set`: strictly sorted, and exactly the images as members -/
+theorem map_set_spec (xs : List α) (f : α → Nat) :
+    Spec.StrictSorted (mapSet xs f).1.elems ∧ (∀ y, y ∈ (mapSet xs f).1.elems ↔ y ∈ xs.map f) ∧ (mapSet xs f).2 = xs := by
+  rw [(mapSet_eq xs f).1]
+  exact ⟨(setOfList_spec _).1, (setOfList_spec _).2, (mapSet_eq xs f).2⟩
+
+theorem map_optional_spec (xs : List α) (f : α → Option β) : mapOptional xs f = (xs.filterMap f, xs) :=
+  mapOptional_eq xs f
+
+theorem map_concat_spec (xs : List α) (f : α → List β) : mapConcat xs f = (xs.flatMap f, xs) :=
+  mapConcat_eq xs f
+
+theorem fold_spec (xs : List α) (s : σ) (f : α → σ → σ) : fold xs s f = xs.foldl (fun st e => f e st) s :=
+  fold_eq_foldl xs s f
+
+/-- `fold_break` returns `s_x` for the largest `x` such that `l_j = continue_` for all `j < x` (documentation of fold_break.hpp) -/
+theorem fold_break_spec (f : α → σ → Loop × σ) (xs : List α) (s : σ) : foldBreak xs s f = Spec.foldBreak f xs s :=
+  foldBreak_eq f xs s
+
+/-! ## all_of, contains(_if), find_opt, find_if_opt, find_by_opt, index_of -/
+
+/-- `all_of` = `List.all`; the predicate is evaluated up to and including the first failing element -/
+theorem all_of_spec (xs : List α) (p : α → Bool) :
+    allOf xs p = (xs.all p, xs.take (xs.findIdx (fun x => !p x) + 1)) := allOf_eq xs p
+
+/-- `contains_if` = `List.any`; the predicate is evaluated up to and including the first hit -/
+theorem contains_if_spec (xs : List α) (p : α → Bool) :
+    containsIf xs p = (xs.any p, xs.take (xs.findIdx p + 1)) := containsIf_eq xs p
+
+theorem contains_spec [BEq α] (xs : List α) (v : α) : contains xs v = xs.any (· == v) := contains_eq xs v
+
+theorem contains_mem [BEq α] [LawfulBEq α] (xs : List α) (v : α) : contains xs v = true ↔ v ∈ xs :=
+  contains_iff_mem xs v
+
+/-- `find_opt`: position of the first occurrence, or nothing -/
+theorem find_opt_spec [BEq α] (xs : List α) (v : α) : findOpt xs v = xs.idxOf? v := findOpt_eq xs v
+
+/-- the iterator returned by `find_opt` can be dereferenced and points at an element equal to `v` -/
+theorem find_opt_valid [BEq α] [LawfulBEq α] (xs : List α) (v : α) (i : Nat) (h : findOpt xs v = some i) :
+    xs[i]? = some v := by
+  rw [findOpt_eq, List.idxOf?, List.findIdx?_eq_some_iff_getElem] at h
+  obtain ⟨hi, hv, _⟩ := h
+  simp [List.getElem?_eq_getElem hi, eq_of_beq hv]
+
+theorem find_if_opt_spec (xs : List α) (p : α → Bool) : findIfOpt xs p = xs.findIdx? p := findIfOpt_eq xs p
+
+theorem index_of_spec [BEq α] (xs : List α) (v : α) : indexOf xs v = xs.idxOf? v := indexOf_eq xs v
+
+/-- `find_by_opt` = `findSome?`; `f` is called up to and including the first element with a non-empty result -/
+theorem find_by_opt_spec (xs : List α) (f : α → Option β) :
+    findByOpt xs f = (xs.findSome? f, xs.take (xs.findIdx (fun x => (f x).isSome) + 1)) := findByOpt_eq xs f
+
+/-! ## equal_range, binary_search -/
+
+/-- on a sorted range `equal_range` is `[#{x < v}, #{¬ v < x})`, without any out-of-bounds access and within the loop budget -/
+theorem equal_range_sorted (lt : α → α → Bool) (hlt : StrictWeak lt) (xs : List α) (v : α) (hs : Spec.SortedBy lt xs) :
+    equalRange lt xs v = .ok (Spec.equalRange lt xs v) := equalRange_eq lt hlt xs v hs
+
+/-- `binary_search` on a sorted range: the position of the element equivalent to `v` if there is exactly one, else nothing -/
+theorem binary_search_sorted (lt : α → α → Bool) (hlt : StrictWeak lt) (xs : List α) (v : α) (hs : Spec.SortedBy lt xs) :
+    binarySearch lt xs v = .ok (Spec.binarySearch lt xs v) := binarySearch_eq lt hlt xs v hs
+
+/-! ## remove(_if), unique(_if), reverse, repeat, generate_n -/
+
+/-- `remove_if` leaves the elements not satisfying `p`, in order, and reports whether something was removed —
+    whatever `std::remove_if` leaves behind its returned position (`junk`) -/
+theorem remove_if_spec (xs junk : List α) (p : α → Bool) :
+    removeIf xs junk p = (xs.any p, xs.filter (fun x => !p x)) := removeIf_eq xs junk p
+
+theorem remove_spec [BEq α] (xs junk : List α) (e : α) :
+    remove xs junk e = (xs.any (fun r => e == r), xs.filter (fun r => !(e == r))) := remove_eq xs junk e
+
+/-- `unique_if` keeps the first element of every run (each element is compared with the last kept one) -/
+theorem unique_if_spec (xs junk : List α) (pred : α → α → Bool) : uniqueIf xs junk pred = xs.eraseRepsBy pred :=
+  uniqueIf_eq xs junk pred
+
+theorem unique_spec [BEq α] (xs junk : List α) : unique xs junk = xs.eraseReps := unique_eq xs junk
+
+theorem reverse_spec (xs : List α) : reverse xs = .ok xs.reverse := reverse_eq xs
+
+/-- `repeat(count, f)` calls `f` exactly `max(count, 0)` times -/
+theorem repeat_spec (count : Int) (f : σ → σ) (s : σ) : repeatLoop count f 0 s = Nat.repeat f count.toNat s := by
+  simpa using repeatLoop_eq count f 0 s
+
+/-- `generate_n` collects the first `count` outputs of the generator, in call order -/
+theorem generate_n_spec (count : Nat) (gen : σ → β × σ) (g : σ) :
+    (generateN count gen g).1.elems = Spec.genOutputs gen count g ∧ (generateN count gen g).2 = Spec.genState gen count g :=
+  generateN_eq count gen g
+
+/-! ## split_string, join_strings -/
+
+theorem split_string_spec [BEq α] (s : List α) (delim : α) : splitString s delim = s.splitOn delim := by
+  have h := splitLoop_eq s delim 0 0 [] (Nat.le_refl _) (Nat.zero_le _)
+  obtain ⟨p, ps, hp⟩ := List.exists_cons_of_ne_nil (List.splitOn_ne_nil delim s)
+  rw [splitString, h]
+  simp [substr, hp]
+
+theorem join_strings_spec (range : List (List α)) (delim : List α) : joinStrings range delim = delim.intercalate range := by
+  simpa [joinStrings] using joinLoop_eq range delim 0 []
+
+/-- `split_string` is inverted by `join_strings` -/
+theorem join_split [BEq α] [LawfulBEq α] (s : List α) (delim : α) :
+    joinStrings (splitString s delim) [delim] = s := by
+  rw [split_string_spec, join_strings_spec, List.intercalate_splitOn]
+
+/-- and conversely, for a non-empty list of pieces that do not contain the delimiter -/
+theorem split_join [BEq α] [LawfulBEq α] (pieces : List (List α)) (delim : α)
+    (hd : ∀ l ∈ pieces, delim ∉ l) (hne : pieces ≠ []) :
+    splitString (joinStrings pieces [delim]) delim = pieces := by
+  rw [split_string_spec, join_strings_spec, List.splitOn_intercalate delim hd hne]
+
+/-! ## erase while iterating -/
+
+/-- `sequence_iteration` visits every element exactly once, in order, and leaves exactly the kept ones -/
+theorem sequence_iteration_spec (xs : List α) (rm : α → Bool) :
+    seqIteration xs (fun e (log : List α) => (rm e, log ++ [e])) [] = (xs.filter (fun x => !rm x), xs) := by
+  simpa [seqIteration] using iterate_eq rm [] xs []
+
+/-- `map_iteration` (erase through the saved `next` iterator) likewise -/
+theorem map_iteration_spec (m : Map) (rm : Nat × Nat → Bool) :
+    mapIteration m (fun e (log : List (Nat × Nat)) => (rm e, log ++ [e])) [] = (m.filter (fun x => !rm x), m) := by
+  simpa [mapIteration] using iterate_eq rm [] m []
+
+/-! ## container helpers -/
+
+theorem join_spec (first : List β) (args : List (List β)) : join first args = first ++ args.flatten := join_eq first args
+
+/-- `join` on sets: strictly sorted, members = union of the members -/
+theorem join_set_spec (first : List Nat) (args : List (List Nat)) (hs : Spec.StrictSorted first) :
+    Spec.StrictSorted (joinSet first args) ∧ ∀ y, y ∈ joinSet first args ↔ y ∈ first ∨ ∃ a ∈ args, y ∈ a := by
+  unfold joinSet
+  induction args generalizing first with
+  | nil => simp [hs]
+  | cons a as ih =>
+    simp only [List.foldl_cons]
+    obtain ⟨h1, h2⟩ := setOfList_foldl a first hs
+    obtain ⟨h3, h4⟩ := ih _ h1
+    refine ⟨h3, fun y => ?_⟩
+    rw [h4, h2]
+    simp only [List.mem_cons, exists_eq_or_imp]
+    grind
+
+theorem at_optional_spec (xs : List α) (i : Nat) : atOptional xs i = xs[i]?.map Except.ok := atOptional_eq xs i
+
+theorem find_opt_mapped_spec (m : Map) (k : Nat) : findOptMapped m k = m.lookup k := findOptMapped_eq m k
+
+/-- `get_or_insert_with_result`: found → the mapped value, `inserted = false`, nothing changes, `create` not called;
+    not found → `create(key)` is called once, its value is inserted and returned, `inserted = true` -/
+theorem get_or_insert_spec (m : Map) (k : Nat) (create : Nat → σ → Nat × σ) (s : σ) (hs : Spec.StrictSorted (m.map (·.1))) :
+    getOrInsert m k create s =
+      match m.lookup k with
+      | some e => (.ok (e, false), m, s)
+      | none => (.ok ((create k s).1, true), mapEmplace k (create k s).1 m, (create k s).2) :=
+  getOrInsert_eq m k create s hs
+
+/-- the map after an insertion: only the new key changed, and the keys stay strictly sorted -/
+theorem map_emplace_spec (k v k' : Nat) (m : Map) (hs : Spec.StrictSorted (m.map (·.1))) :
+    (mapEmplace k v m).lookup k' = (if k' = k then (match m.lookup k with | some e => some e | none => some v) else m.lookup k')
+    ∧ Spec.StrictSorted ((mapEmplace k v m).map (·.1)) := by
+  refine ⟨lookup_mapEmplace k v k' m hs, ?_⟩
+  have := keys_mapEmplace k v m
+  unfold keys at this
+  rw [this]
+  exact strictSorted_setInsert k _ hs
+
+theorem key_set_spec (m : Map) (hs : Spec.StrictSorted (m.map (·.1))) : keySet m = m.map (·.1) := keySet_eq m hs
+
+theorem map_values_spec (m : Map) : mapValues m = m.map (·.2) := mapValues_eq m
+
+theorem set_union_spec (a b : List Nat) :
+    Spec.StrictSorted (setUnion a b) ∧ ∀ z, z ∈ setUnion a b ↔ z ∈ a ∨ z ∈ b := by
+  refine ⟨(setOfList_spec _).1, fun z => ?_⟩
+  rw [setUnion, (setOfList_spec _).2, mem_stdSetUnion]
+
+theorem set_intersection_spec (a b : List Nat) (ha : Spec.StrictSorted a) (hb : Spec.StrictSorted b) :
+    Spec.StrictSorted (setIntersection a b) ∧ ∀ z, z ∈ setIntersection a b ↔ z ∈ a ∧ z ∈ b := by
+  refine ⟨(setOfList_spec _).1, fun z => ?_⟩
+  rw [setIntersection, (setOfList_spec _).2, mem_stdSetIntersection a b ha hb]
+
+theorem set_difference_spec (a b : List Nat) (ha : Spec.StrictSorted a) (hb : Spec.StrictSorted b) :
+    Spec.StrictSorted (setDifference a b) ∧ ∀ z, z ∈ setDifference a b ↔ z ∈ a ∧ z ∉ b := by
+  refine ⟨(setOfList_spec _).1, fun z => ?_⟩
+  rw [setDifference, (setOfList_spec _).2, mem_stdSetDifference a b ha hb]
+
+/-- `index_map::get`: the vector grows to `index + 1` by appending successive results of `insert()`, existing
+    elements are untouched, the returned element exists and is the one at `index` -/
+theorem index_map_get_spec (impl : List α) (index : Nat) (insert : σ → α × σ) (s : σ) :
+    ∃ x, indexMapGet impl index insert s =
+        .ok (x, impl ++ Spec.genOutputs insert (index + 1 - impl.length) s, Spec.genState insert (index + 1 - impl.length) s)
+      ∧ (impl ++ Spec.genOutputs insert (index + 1 - impl.length) s)[index]? = some x :=
+  indexMapGet_eq impl index insert s
+
+/-! ## arrays and tuples -/
+
+/-- `array::init` calls the function with the indices 0 … N-1 in this order -/
+theorem array_init_spec (g : Nat → β) (n : Nat) :
+    arrayInitS (fun i (log : List Nat) => (g i, log ++ [i])) n [] = ((List.range n).map g, List.range n) := by
+  simpa using arrayInitS_eq g n []
+
+theorem array_map_spec (src : List α) (f : α → β) : arrayMap src f = .ok (src.map f) := arrayMap_eq src f
+theorem array_append_spec (a1 a2 : List α) : arrayAppend a1 a2 = .ok (a1 ++ a2) := arrayAppend_eq a1 a2
+theorem array_join_spec (a1 : List α) (rest : List (List α)) : arrayJoin a1 rest = .ok (a1 ++ rest.flatten) := arrayJoin_eq a1 rest
+theorem array_push_back_spec (src : List α) (x : α) : arrayPushBack src x = .ok (src ++ [x]) := arrayAppend_eq src [x]
+theorem array_from_range_spec (size : Nat) (src : List α) :
+    arrayFromRange size src = if src.length = size then some (.ok src) else none := arrayFromRange_eq size src
+theorem tuple_map_spec (t : List α) (f : α → β) : tupleMap t f = .ok (t.map f) := arrayMap_eq t f
+theorem tuple_concat_spec (ts : List (List α)) : tupleConcat ts = ts.flatten := tupleConcat_eq ts
+theorem tuple_push_back_spec (t : List α) (x : α) : tuplePushBack t x = .ok (t ++ [x]) := tuplePushBack_eq t x
+
+/-! ## Non-vacuity and concrete instances -/
+
+example : Spec.SortedBy (fun a b : Nat => decide (a < b)) [0, 1, 1, 2] := by unfold Spec.SortedBy; decide
+example : binarySearch (fun a b : Nat => decide (a < b)) [0, 1, 1, 2] 2 = .ok (some 3) := by rfl
+-- duplicates: not "exactly one" → nothing
+example : binarySearch (fun a b : Nat => decide (a < b)) [0, 1, 1, 2] 1 = .ok none := by rfl
+-- the hypothesis of the sorted theorems is satisfiable: `<` on Nat is a strict weak order
+example : StrictWeak (fun a b : Nat => decide (a < b)) :=
+  ⟨by intro a b h; simp at h ⊢; omega, by intro a b c h; simp at h ⊢; omega⟩
+example : splitString [1, 0, 0, 2, 0] 0 = [[1], [], [2], []] := by rw [split_string_spec]; decide
+example : joinStrings [[1], [], [2], []] [0] = [1, 0, 0, 2, 0] := by rw [join_strings_spec]; decide
+-- an off-by-one in `remove_if` (erase from `position + 1`) would keep a removed element: the model does not
+example : removeIf [1, 0, 1, 2] [9, 9, 9, 9] (· == 1) = (true, [0, 2]) := by decide
+example : (allOf [0, 0, 1, 0] (· == 0)).2 = [0, 0, 1] := by rw [all_of_spec]; decide
+example : Spec.StrictSorted [0, 2] ∧ (getOrInsert [(0, 5), (2, 7)] 1 (fun k (n : Nat) => (k + 10, n + 1)) 0)
+    = (.ok (11, true), [(0, 5), (1, 11), (2, 7)], 1) := ⟨by unfold Spec.StrictSorted; decide, by rfl⟩
+
+end Fcppt.C16
